@@ -174,7 +174,7 @@ func (c *chunkReader) Read(p []byte) (int, error) {
 
 var specC12Stream = Register(&Spec[StreamCase]{
 	Prop: "C12", Name: "stream",
-	Rule: "byte strings of 0..64 KiB (block-boundary lengths 55,56,63,64,65,111,112,119,120,127,128,129 in a dedicated class; small contents fully rapid-owned) x up to 6 cut points (empty chunks allowed) x an ordered list of 0..5 algorithm names with repetition x {writer, reader} x {single, plural constructor}; source readers end with (0, EOF), deliver their last chunk together with io.EOF, or fail with (n>0, error) after a generated chunk (the stream is then what was delivered). Oracle: the bytes arriving at the target / delivered by the reader equal the input; per hasher Name() is the requested name in order, Size() the byte count so far after every chunk and the total at the end, Sum(nil) the crypto/md5, sha1, sha256, sha512 digest of the whole input; FileHashFromHasher taken in the middle of a written stream describes the prefix and does not disturb the rest, and taken twice at the end (before Sum) gives the true digest both times. Non-trivial: >= 1 byte in >= 2 chunks (and >= 2 algorithms for the plural constructors); distinct by case.",
+	Rule: "byte strings of 0..64 KiB (block-boundary lengths 55,56,63,64,65,111,112,119,120,127,128,129 in a dedicated class; small contents fully rapid-owned) x up to 6 cut points (empty chunks allowed) x an ordered list of 0..5 algorithm names with repetition x {writer, reader} x {single, plural constructor}; source readers end with (0, EOF), deliver their last chunk together with io.EOF, or fail with (n>0, error) after a generated chunk (the stream is then what was delivered). Oracle: the bytes arriving at the target / delivered by the reader equal the input; per hasher Name() is the requested name in order, Size() the byte count so far after every chunk and the total at the end, Sum(nil) the crypto/md5, sha1, sha256, sha512 digest of the whole input, also when every hasher's digest is collected first and looked at only after the others (and two unrelated hashers) were asked; FileHashFromHasher taken in the middle of a written stream describes the prefix and does not disturb the rest, and taken twice at the end (before Sum) gives the true digest both times. Non-trivial: >= 1 byte in >= 2 chunks (and >= 2 algorithms for the plural constructors); distinct by case.",
 	Check: func(c StreamCase, r *Recorder) error {
 		chunks := chunksOf(c.Data, c.Cuts)
 		nonEmpty := 0
@@ -329,6 +329,23 @@ var specC12Stream = Register(&Spec[StreamCase]{
 				return errf("FileHashFromHasher(%s) = %+v, want true digest %s size %d", c.Algos[i], fh, trueDigest(c.Algos[i], c.Data), len(c.Data))
 			}
 		}
+		// digests are the caller's to keep: all of them collected first (one per hasher, then one of
+		// an unrelated hasher over other bytes), compared afterwards
+		held := make([][]byte, len(hashers))
+		for i, h := range hashers {
+			held[i] = h.Sum(nil)
+		}
+		for _, other := range []string{"sha512", "md5"} {
+			if x, err := hashio.NewHasher(other); err == nil {
+				x.Write([]byte("some other stream"))
+				_ = x.Sum(nil)
+			}
+		}
+		for i := range hashers {
+			if got, want := hex.EncodeToString(held[i]), trueDigest(c.Algos[i], c.Data); got != want {
+				return errf("hasher %d (%s): the digest handed out by Sum(nil) reads %s after %d more Sum(nil) calls on other hashers, true digest %s", i, c.Algos[i], got, len(hashers)-i+1, want)
+			}
+		}
 		return nil
 	},
 })
@@ -407,8 +424,8 @@ type VerifyCase struct {
 func genVerifyCase(t *rapid.T) VerifyCase {
 	d := genData(t, "d")
 	return VerifyCase{Data: d, Cuts: genCuts(t, "cut", len(d)),
-		Source:   rapid.SampledFrom([]string{"field256", "field512", "best256", "best512", "bestboth", "hasher256", "hasher512", "hashermd5", "hashersha1"}).Draw(t, "source"),
-		Recorded: rapid.SampledFrom([]string{"true", "true", "other", "nibble", "nibble", "truncated-even", "truncated-odd", "otheralgo", "upper"}).Draw(t, "recorded"),
+		Source:    rapid.SampledFrom([]string{"field256", "field512", "best256", "best512", "bestboth", "hasher256", "hasher512", "hashermd5", "hashersha1"}).Draw(t, "source"),
+		Recorded:  rapid.SampledFrom([]string{"true", "true", "other", "nibble", "nibble", "truncated-even", "truncated-odd", "otheralgo", "upper"}).Draw(t, "recorded"),
 		Which:     rapid.IntRange(0, 127).Draw(t, "which"),
 		SizeDelta: rapid.SampledFrom([]int{0, 0, 0, 0, -1, 1, -5, 100, -1000000}).Draw(t, "sizeDelta"),
 		Extra:     rapid.SampledFrom([]int{0, 0, 0, 0, 1, 2, 64, 4096}).Draw(t, "extra")}
@@ -416,7 +433,7 @@ func genVerifyCase(t *rapid.T) VerifyCase {
 
 var specC12Verify = Register(&Spec[VerifyCase]{
 	Prop: "C12", Name: "verify",
-	Rule: "(content, recorded hash) pairs; the entry comes from a Checksums-Sha256 / Checksums-Sha512 field parsed into []SHA256FileHash / []SHA512FileHash, from control.BestChecksums with only the 256 field, only the 512 field or both present (via Checksums()), or from FileHashFromHasher over any of the four hashers (md5, sha1, sha256, sha512); the recorded hash is the true digest, the digest of other content, one flipped nibble, truncated (even / odd length), the other algorithm's digest of the same content, or upper-case hex; the entry's Size column equals the stream length or is off by -1, +1, -5, +100 or far less, and in some cases the stream is the recorded content followed by 1..4096 further bytes. Oracle (the digest decides, not the size column; parsing the line into a variable that held other entries gives the same entry, a rejected line leaves the variable empty): the entry's Algorithm is that of the field it came from; writing the content in chunks and Close() returns nil iff digest_{entry algorithm}(content) == recorded hash (a malformed hex string may already be rejected by Verifier()). An entry built from an md5 or sha1 hasher is an entry built from a hasher like any other (Verifier() used to end the process with log.Fatalf for it - F52); md5/sha1 entries parsed from Files / Checksums-Sha1 fields are not named by the statement and not generated. Non-trivial: hash wrong in exactly one nibble, right under the wrong algorithm, or true with content in >= 2 chunks; distinct by case.",
+	Rule: "(content, recorded hash) pairs; the entry comes from a Checksums-Sha256 / Checksums-Sha512 field parsed into []SHA256FileHash / []SHA512FileHash, from control.BestChecksums with only the 256 field, only the 512 field or both present (via Checksums()), or from FileHashFromHasher over any of the four hashers (md5, sha1, sha256, sha512); the recorded hash is the true digest, the digest of other content, one flipped nibble, truncated (even / odd length), the other algorithm's digest of the same content, or upper-case hex; the entry's Size column equals the stream length or is off by -1, +1, -5, +100 or far less, and in some cases the stream is the recorded content followed by 1..4096 further bytes. Oracle (the digest decides, not the size column; parsing the line into a variable that held other entries gives the same entry, a rejected line leaves the variable empty; once Verifier() has returned, the entry variable is overwritten with another entry - the verdict is about the entry the verifier was made from): the entry's Algorithm is that of the field it came from; writing the content in chunks and Close() returns nil iff digest_{entry algorithm}(content) == recorded hash (a malformed hex string may already be rejected by Verifier()). An entry built from an md5 or sha1 hasher is an entry built from a hasher like any other (Verifier() used to end the process with log.Fatalf for it - F52); md5/sha1 entries parsed from Files / Checksums-Sha1 fields are not named by the statement and not generated. Non-trivial: hash wrong in exactly one nibble, right under the wrong algorithm, or true with content in >= 2 chunks; distinct by case.",
 	Check: func(c VerifyCase, r *Recorder) error {
 		algo := "sha256"
 		switch c.Source {
@@ -565,6 +582,15 @@ var specC12Verify = Register(&Spec[VerifyCase]{
 			}
 			return nil // malformed hex rejected up front
 		}
+		// the verifier judges against the entry it was made from, as it was then: the variable goes
+		// on to hold the next entry of the list (a range loop under go 1.19 semantics, a struct
+		// parsed into again) while the stream is still being written
+		if wantOK {
+			fh.Hash = strings.Repeat("0", len(fh.Hash))
+		} else {
+			fh.Hash = trueDigest(fh.Algorithm, stream)
+		}
+		fh.Filename, fh.Size = "next-entry.tar.gz", int64(len(stream))+7
 		for _, ch := range chunks {
 			if n, err := v.Write(ch); err != nil || n != len(ch) {
 				return errf("verifier Write returned %d, %v", n, err)
